@@ -104,6 +104,45 @@ def tl_vector(w, elem, tail):
         w.claim('loop iterations bounded by the input length', ticks <= n + 1)
 
 
+# ---- BoC header: loops driven by count fields ---------------------------------------------------------------------------
+
+@obligation('C19.boc_header', 'C19', cases=[{'idx': i, 'size': sz, 'tail': 0} for i in (0, 1) for sz in (1, 2, 3, 4)],
+            fuc=['pytoniq_core.boc.deserialize.Boc.deserialize_boc_header'], budget={'seconds': 60, 'paths': 1500},
+            descr='deserialize_boc_header on a generic-magic header whose cells / roots / absent counts and total size are SYMBOLIC over '
+                  'their full width (size 1..4 bytes), with or without the index flag, and nothing after the header (headers followed by data are exercised by the bounded adversarial obligation): the call raises '
+                  'or performs at most len(input) iterations of its root-list and index comprehensions - a count field larger than the '
+                  'input never drives a loop')
+def boc_header(w, idx, size, tail):
+    D = importlib.import_module('pytoniq_core.boc.deserialize')
+    off = 1
+    cells = w.int('cells', 0, (1 << (8 * size)) - 1)
+    roots = w.int('roots', 0, (1 << (8 * size)) - 1)
+    absent = w.int('absent', 0, (1 << (8 * size)) - 1)
+    tot = w.int('tot', 0, 255)
+    tl = w.bytes('tail', tail)
+    head = bytes.fromhex('b5ee9c72') + bytes([(128 if idx else 0) | size, off])
+    if w.symbolic:
+        from vf.bits import SymBytes
+        from vf.spec import enc as E_
+        body = SymBytes.make(E_.uint(cells, 8 * size) + E_.uint(roots, 8 * size) + E_.uint(absent, 8 * size) + E_.uint(tot, 8))
+        data = head + body + tl
+    else:
+        data = head + cells.to_bytes(size, 'big') + roots.to_bytes(size, 'big') + absent.to_bytes(size, 'big') + bytes([tot]) + tl
+    n = 6 + 3 * size + 1 + tail
+    _reset(w)
+    if w.symbolic:
+        k, r = call(D.Boc.deserialize_boc_header, data)
+    else:
+        k, r = _capped(D.Boc.deserialize_boc_header, (data,), n)
+    ticks = w.tick_count('Boc.deserialize_boc_header:loop')
+    if k == 'cap':
+        w.claim(f'loop iterations bounded by the input length (tick cap hit after {ticks} iterations for {n} input bytes)', False)
+        return
+    w.claim('comprehension iterations bounded by the input length', ticks <= n + 3)
+    if k != 'ok':
+        w.claim('refuses with an error, not a crash', is_error(r))
+
+
 # ---- per-cell work -------------------------------------------------------------------------------------------------------
 
 CELL_CASES = [{'type_': -1, 'kids': k} for k in (['o0'] * 0, ['o0'], ['o7', 'p3'], ['o5', 'o0', 'p1', 'o3'])] + \
@@ -270,10 +309,17 @@ def adversarial(w):
         mode = rng.choice(['counts', 'random', 'trunc', 'magic'])
         if mode == 'counts':
             size = data[4] & 7
-            pos = rng.choice([6, 6 + size, 6 + 2 * size, 6 + 3 * size])
-            for j in range(rng.choice([1, size])):
-                if pos + j < len(data):
-                    data[pos + j] = 0xFF
+            if rng.random() < 0.5:          # widen the size field itself and re-lay the header with huge counts, index on or off
+                size = rng.choice([3, 4])
+                fl = (0x80 if rng.random() < 0.7 else 0) | size
+                fields = [rng.choice([(1 << (8 * size)) - 1, 1, 0, rng.getrandbits(8 * size)]) for _ in range(3)]
+                data = bytearray(bytes.fromhex('b5ee9c72') + bytes([fl, 1]) + b''.join(f.to_bytes(size, 'big') for f in fields) +
+                                 bytes([rng.getrandbits(8)]) + bytes(rng.getrandbits(8) for _ in range(rng.randrange(0, 12))))
+            else:
+                for pos in [p_ for p_ in (6, 6 + size, 6 + 2 * size, 6 + 3 * size) if rng.random() < 0.5]:
+                    for j in range(rng.choice([1, size])):
+                        if pos + j < len(data):
+                            data[pos + j] = 0xFF
         elif mode == 'random':
             for _ in range(rng.randrange(1, 6)):
                 data[rng.randrange(len(data))] = rng.getrandbits(8)
